@@ -131,11 +131,12 @@ CHECKS = {
     ),
     "C19": dict(
         level="model_checking",
-        engine="S",
+        engine="S+P",
         technique="exhaustive preemption-bounded schedule exploration of Stop against the real health-check loop, ticker firings, probe goroutines and a client request (deadlock / panic / late-probe verdicts)",
         text="The real NewLoadBalancer with active checks on runs its health-check goroutine, ticker, select and probe goroutines under the controlled scheduler; ticker firings (0-2), one or two Stop callers and a client request are explored under all interleavings up to the preemption bound. Verdicts: deadlock (Stop never returns), any panic (both WaitGroup misuse panics are modelled), a probe sent after the last Stop returned, pooled connections left open, a further Stop or a late tick having any effect.",
-        note="A probe counts as sent when the scripted transport is entered with a live context (it re-checks the context after its in-flight scheduling point); the process-level clauses (signals, shutdown timeout) belong to the engine-P part.",
+        note="A probe counts as sent when the scripted transport is entered with a live context (it re-checks the context after its in-flight scheduling point). Process part (engine P): the real binary with shutdown timeout 2 s receives SIGTERM or SIGINT at each of {idle, request waiting for backend headers, response mid-body, probe in flight}: exit status 0 within the timeout (6 s margin), the in-flight request (0.7 s of work left) is completed, no probe reaches the backend after exit.",
         jobs=[
+            dict(name="c19p", part="P", pkg=MAIN, run="TestVerifC19P", mode="plain", gomaxprocs=4, needs_binary=True, shards=dict(quick=8, thorough=8), timeout=dict(quick=600, thorough=900)),
             dict(name="c19s", part="S", pkg=LB, run="TestVerifC19", mode="instr", shards=dict(quick=16, thorough=16), timeout=dict(quick=900, thorough=3400)),
         ],
         assumptions=[],
